@@ -700,7 +700,7 @@ package gen
 //@   ensures[C01,C04] err == nil ==> #f.vals == old(#f.vals) + pg.N
 //@ loop (*StringField).Read#1
 //@   invariant (rfault ==> old(rfault)) && dyn(rr) == typeid("*bytes.Buffer") && payload(rr) != 0
-//@   invariant[C01,C04] 0 <= j && j <= pg.N && #f.vals == old(#f.vals) + j && sameOrFresh(f.vals)
+//@   invariant[C01,C04] 0 <= iter && iter <= pg.N && #f.vals == old(#f.vals) + iter && sameOrFresh(f.vals)
 //@ func (*StringOptionalField).Read
 //@   verify[C01]
 //@   requires f != nil && external(r)
@@ -712,7 +712,7 @@ package gen
 //@   ensures[C01,C04] err == nil && old(#f.vals) == 0 ==> #f.vals == nonNull(f)
 //@ loop (*StringOptionalField).Read#1
 //@   invariant (rfault ==> old(rfault)) && dyn(rr) == typeid("*bytes.Buffer") && payload(rr) != 0
-//@   invariant[C01,C04] 0 <= j && j <= nonNull(f) && #f.vals == old(#f.vals) + j && sameOrFresh(f.vals)
+//@   invariant[C01,C04] 0 <= iter && iter <= nonNull(f) && #f.vals == old(#f.vals) + iter && sameOrFresh(f.vals)
 
 //@ func (indices).rep
 //@   modifies HA(i)
